@@ -1,48 +1,80 @@
 def _extra(run):
     run.extra_cov["rules_with_stated_predicate"] = {
-        "shelley_ma": ["insNotEmpty", "insInUtxo", "validity", "txSize", "minLovelace", "fee(min fee)", "networkId", "auxData"],
+        "shelley_ma": ["insNotEmpty", "insInUtxo", "validity", "txSize", "minLovelace", "preservation (C34 model; transactions without certificates)",
+                       "fee (min fee)", "networkId", "auxData", "witnesses (C35 model: key witnesses + native-script witnesses)", "minting"],
         "alonzo/babbage/conway": ["insNotEmpty", "insInUtxo (+collateral, +reference inputs)", "validity", "fee (min fee + collateral count/kind/"
-                                  "amount/annotation)", "minLovelace", "valSize", "networkId (outputs + body)", "txSize", "auxData"],
+                                  "amount/annotation)", "preservation (C34 model; transactions without certificates)", "minLovelace", "valSize",
+                                  "networkId (outputs + body)", "txSize", "exUnits (C37 model)", "minting", "wellFormed (empty in the code)",
+                                  "witnesses = needed scripts + datum witnesses + redeemer coverage + required signers + key witnesses (C35 model)",
+                                  "languages", "auxData", "scriptDataHash (Conway: Model/ScriptData + Blake2b on the witness-set bytes; "
+                                  "Alonzo/Babbage: BLAKE2b-256 of the observed re-encoded redeemers, datums, era cost-model bytes)"],
         "byron": ["insNotEmpty", "txSize"]}
     run.extra_cov["rules_composed_by_observed_verdict_only"] = [
-        "preservation (C34)", "exUnits (C37)", "witnesses = needed scripts + datums + redeemer coverage + required signers + vkey witnesses "
-        "(signature part: C35)", "minting policy witnesses", "languages", "scriptDataHash", "wellFormed", "certificates",
+        "certificates (Shelley-MA)", "preservation of transactions that carry certificates (deposit terms are not in Model/Value)",
         "Byron: outsNotEmpty, insInUtxo, outsHaveLovelace, fee, witnesses"]
 
 
 SPEC = {
     "id": "C38",
-    "level": "other",
+    "level": "proof",
     "lean_modules": ["PallasVerif.Props.C38"],
     "required_theorems": ["accept_implies_all_rules", "violates_rule_rejected", "first_failure", "accept_iff", "accepted_inputs_present",
                           "accepted_validity", "accepted_min_lovelace", "accepted_value_size", "accepted_network", "accepted_min_fee",
                           "accepted_collateral_partial", "collateralOk_spec", "full_collateral_fails_at_witness", "accepted_aux_data",
-                          "stated_rules_cover"],
+                          "stated_rules_cover", "stated_script_rules", "accepted_minting", "minting_subsumed", "accepted_scripts", "accepted_redeemers",
+                          "accepted_datums", "accepted_input_datums_covered", "accepted_languages", "accepted_script_data_hash_conway",
+                          "accepted_script_data_hash_alonzo", "accepted_script_data_hash_babbage", "accepted_no_script_data_hash",
+                          "accepted_value_balanced", "accepted_value_balanced_shelleyMA", "accepted_value_balanced_conway", "accepted_ex_units",
+                          "accepted_signatures", "collateral_amount_iff", "collateral_accepts_at_required", "collateral_rejects_one_below",
+                          "truncated_quotient_is_weaker", "balanceAmounts_iff", "alonzoAmounts_iff", "min_fee_boundary", "tx_size_boundary",
+                          "upper_bound_boundary", "lower_bound_boundary", "value_size_boundary", "min_lovelace_boundary"],
     "extra": _extra,
     "streams": [{"name": "rules", "quick": 150, "thorough": 6000}],
-    "rule": "seed-independent part: each of the 24 fixtures and of 65 synthesized own-key transactions (5 eras x 13 body variants: no inputs, "
+    "rule": "seed-independent part: each of the 24 fixtures and of 85 synthesized own-key transactions (5 eras x 17 body variants: no inputs, "
             "no/expired TTL, future validity start, body network id, foreign output network, output below min ada, aux-data hash without / "
-            "with / with wrong aux data) unmutated and with every single applicable mutator (slot past TTL / at TTL / before start, other "
-            "network, size limit = size-1 / size, min fee = fee+1, coins-per-byte raised, value-size limit 0, max collateral 0, collateral "
-            "percentage raised, a spent / collateral / reference input removed from the UTxO, collateral re-addressed to a script / given "
-            "assets / coin lowered, a witness-set field (native scripts, Plutus v1/v2/v3 scripts, datums, redeemers) removed, aux data "
-            "removed / altered, a used language's cost model removed); seeded part: random pairs and triples of mutators. Per op: every "
-            "check_* alone (rule_verdicts hook), validate_txs, and the observations of Model/Rules.View; distinct = sha1 of op text; "
-            "non-trivial = at least one mutator took effect",
-    "trusted_base": ["level `other`: the theorems are about Model/Rules.lean (rule order of the five validators + nine stated predicates over "
-                     "observations); tie = stream `rules`: (a) per rule, the model's predicate on the extracted observations equals what the "
-                     "real check_* answers alone, (b) composition, the model's first failing rule and its error equal validate_txs' result; "
-                     "the extraction of the observations (harness/src/streams/rules.rs `view`) is hand-written and trusted",
-                     "rules without a stated predicate take part through their observed verdict only (coverage."
-                     "rules_composed_by_observed_verdict_only); for them the property is decided by mutation search alone",
+            "with / with wrong aux data, a mint under a native-script policy with / without the script, a required signer with / without "
+            "its key witness) unmutated and with every single applicable mutator. Threshold mutators sit exactly on, one below and one "
+            "above each boundary: slot = TTL-1 / TTL / TTL+1 and start-1 / start / start+1, size limit = size-1 / size / size+1, min fee = "
+            "fee-1 / fee / fee+1, coins-per-byte (min utxo value) = the largest value every output meets, +1, -1, value-size limit = "
+            "largest output size, +-1, 0, max ex-units = the redeemers' total, mem-1, steps-1, 0, max collateral inputs = count, "
+            "count-1, 0, paid collateral = required, required-1, required+1 (required = ceil(fee*pct/100)) for four percentages with "
+            "fee*pct mod 100 = 0, 1, 50, 99 (colpaid: percentage + coin of collateral input 0) in all three Plutus eras. Others: other "
+            "network, coins-per-byte raised, collateral percentage raised, a spent / collateral / reference input removed from the UTxO, "
+            "collateral re-addressed to a script / given assets / coin lowered, a witness-set field (key witnesses, native scripts, "
+            "Plutus v1/v2/v3 scripts, datums, redeemers) removed, an extra redeemer / datum added, the first redeemer's budget changed "
+            "(only the script-integrity hash notices), an inline datum put on a key-locked input's UTxO entry / a reference input "
+            "re-addressed to a Byron address (only the language rule notices), aux data removed / altered, a used language's cost model "
+            "removed / changed, the lovelace of a spent UTxO entry changed; seeded part: random pairs and triples of mutators. Per op: "
+            "every check_* alone (rule_verdicts hook), validate_txs, and the observations of Model/Rules.View; distinct = sha1 of op "
+            "text; non-trivial = at least one mutator took effect",
+    "trusted_base": ["partial: the theorems are about Model/Rules.lean - the rule order of the five validators and a stated predicate for every "
+                     "rule the property statement names, over plain observations of the transaction, the UTxO set and the parameters; the "
+                     "extraction of these observations (harness/src/streams/rules.rs `view`, `script_facts`, `value_section`, `ex_section`, "
+                     "`wit_section`) is hand-written, trusted harness code. Tie = stream `rules`: (a) per rule, the model's predicate on the "
+                     "extracted observations equals what the real check_* answers alone, (b) composition, the model's first failing rule and "
+                     "its error equal validate_txs' result",
+                     "Alonzo / Babbage script-integrity hash: the re-encoding of redeemers and datums and the era's cost-model bytes are "
+                     "observed (pallas' own encoder, hook cost_model_bytes), the model states which concatenation is hashed; Conway is "
+                     "computed from the witness-set bytes by Model/ScriptData.lean (C08) + Model/Blake2b.lean",
+                     "hash and signature verification enter the witness model as functions (`hash`, `verify`); script hashes, datum "
+                     "hashes, value sizes in words and address decoding are observations",
+                     "not modelled (observed verdict only, coverage.rules_composed_by_observed_verdict_only): Shelley-MA certificates, the "
+                     "value rule of transactions with certificates, the Byron rules other than non-empty inputs and size",
                      "harness/src/fixtures (ported test data, synth keys)"],
     "assumptions": ["`violates just that rule` is realised by mutators that leave the body untouched (environment, UTxO, witness set, aux "
                     "data) on mainnet fixtures, and by re-signed synthesized transactions for body-level changes",
-                    "value size in words (get_val_size_in_words) and address decoding are observations, not modelled"],
+                    "value size in words (get_val_size_in_words) and address decoding are observations, not modelled",
+                    "from Alonzo on check_minting is implied by the needed-scripts part of check_witness_set with the same error "
+                    "(minting_subsumed): removing only that call is not observable there; the rule is separately enforced in Shelley-MA"],
     "explanation": "Known finding reproduced on every run: collateral rules are skipped for Babbage/Conway transactions whose Plutus scripts "
                    "are all reference scripts (repair verified to break 2 pinned Conway tests whose fixtures carry an inconsistent collateral "
-                   "UTxO). Self-tests: (1) check_network_id dropped from validate_babbage_tx -> VIOLATION (rule-fails-alone-but-accepted "
-                   "rule=networkId) with replay; (2) check_upper_bound `<` turned into `<=` in conway.rs -> VIOLATION; (3) harmless: "
-                   "check_min_lovelace and check_output_val_size swapped in validate_babbage_tx -> quiet unless both fail (then the "
-                   "first-failure error differs: documented correspondence break).",
+                   "UTxO). Self-tests, each giving VIOLATION with a concrete replay: check_network_id dropped from validate_babbage_tx; "
+                   "check_upper_bound `<` -> `<=` (conway); collateral count bound +1 (alonzo); check_minting dropped (shelley_ma); "
+                   "check_needed_scripts dropped (babbage); check_datums dropped (alonzo); check_redeemers dropped (conway); "
+                   "check_languages dropped (babbage); check_script_data_hash dropped (conway, alonzo); check_preservation_of_value dropped "
+                   "(alonzo); check_tx_ex_units dropped (babbage); check_required_signers dropped (conway); seeded C38-a (truncating "
+                   "division in the Babbage minimum-collateral comparison) -> rule-not-enforced rule=fee era=babbage on "
+                   "fx:babbage.successful_mainnet_tx_with_minting colpaid=161:963973. Quiet as they must be: check_min_lovelace / "
+                   "check_output_val_size swapped, a temporary inlined in check_witness_set, check_minting dropped from validate_conway_tx "
+                   "(equivalent by minting_subsumed).",
 }
